@@ -3,7 +3,75 @@ from harness import l_rebalance
 from harness.ledger import ASSUMPTIONS as _A
 
 PROPERTY = "C13"
-harness = l_rebalance.harness
+
+
+def harness(c, cfg):
+    if cfg.get("family") == "E":
+        return _episode(c, cfg)
+    return l_rebalance.harness(c, cfg)
+
+
+def _episode(c, cfg):
+    """A single future is held through its expiry (no roll): once its book is dead, the next
+    step must fail loudly instead of valuing the position, and leave the account untouched."""
+    from datetime import datetime
+    import numpy as np
+    from symx import core, stubs
+    from harness.episode import Episode
+    from tradingenv import rewards as _rw
+    from tradingenv.contracts import AbstractContract
+    from tradingenv.broker.broker import EndOfEpisodeError
+    sym = c.mode == "sym"
+    if sym:
+        stubs.install(_rw, "float", core.sym_float)
+    saved = AbstractContract.now
+    AbstractContract.now = datetime.min
+    try:
+        ep = Episode(c, dict(cfg, contract="future", sym_prices=False))
+        F = ep.X
+        exp = F.expiry
+        env = ep.env
+        env.reset()
+        k = 0
+        dead = False
+        while not env._done and k < ep.N + 1:
+            n_rec = len(env.broker.track_record)
+            q_before = env.broker._holdings_quantity.get(F, 0.0)
+            cash_before = env.broker._holdings_quantity[env.broker.base_currency]
+            was_dead = not env.exchange[F].is_alive
+            holding = bool(q_before != 0)
+            act = np.array([0.5 if cfg.get("side", "long") == "long" else -0.5])
+            try:
+                env.step(act)
+                raised = None
+            except EndOfEpisodeError:
+                c.out_of_scope("ruin")
+            except (ValueError, KeyError) as ex:
+                raised = ex
+            k += 1
+            if was_dead and holding:
+                c.prove("C13:episode:step-fails-loudly-when-a-held-contract-has-no-quote", raised is not None)
+                c.prove_eq("C13:episode:failed-step-leaves-position", env.broker._holdings_quantity.get(F, 0.0), q_before)
+                c.prove("C13:episode:failed-step-adds-no-record", len(env.broker.track_record) == n_rec)
+                c.prove_eq("C13:episode:failed-step-leaves-cash", env.broker._holdings_quantity[env.broker.base_currency],
+                           cash_before)
+                c.reached("dead-and-held")
+                break
+            if raised is not None:
+                # the discontinuation arrived among this step's latent events, before the execution
+                # the discontinuation arrived during this step (before the execution if latent, else
+                # before the reward's valuation): failing is right, but only for that reason
+                c.prove("C13:episode:only-a-missing-quote-may-fail-a-step", not env.exchange[F].is_alive,
+                        info=repr(raised))
+                c.reached("dead-during-step")
+                if k > ep.N + 1:
+                    break
+        c.record("k", k)
+        c.reached("episode")
+    finally:
+        AbstractContract.now = saved
+        if sym:
+            stubs.uninstall(_rw, "float")
 PATTERNS = ("never", "bidnan", "asknan", "both", "dead", "dead-then-quoted")
 
 
@@ -43,6 +111,13 @@ def configs(tier):
                             measure="weight", quotes={"A": pat})
                         add(kindA=ka, shapeA=sa, roleA="target", kindB=kb, shapeB="held", roleB="target",
                             measure="weight", quotes={"A": pat, "B": pat})
+    # episode level: a future held through its expiry (June 2030 ES, expiry 2030-06-21)
+    for side in ("long", "short"):
+        out.append({"prop": "C13", "family": "E", "N": 4, "M": 0, "side": side, "t_lo": (2030, 6, 10), "t_hi": (2030, 7, 5),
+                    "id": "C13/episode,side=%s" % side})
+    if tier == "thorough":
+        out.append({"prop": "C13", "family": "E", "N": 4, "M": 0, "side": "long", "latency": "sym", "t_lo": (2030, 6, 10),
+                    "t_hi": (2030, 7, 5), "id": "C13/episode,side=long,latency=sym"})
     return out
 
 
@@ -50,7 +125,7 @@ ANCHORS = ["broker.py:Broker.holdings_values", "broker.py:Broker.net_liquidation
            "broker.py:Broker.marking_to_market", "broker.py:Broker.rebalance", "trade.py:Trade.__init__",
            "exchange.py:LimitOrderBook.acq_price", "exchange.py:LimitOrderBook.terminate",
            "exchange.py:Exchange.process_EventContractDiscontinued"]
-EXPECT_REACH = ["valuation", "failed-rebalance", "successful-rebalance"]
+EXPECT_REACH = ["valuation", "failed-rebalance", "successful-rebalance", "episode", "dead-and-held"]
 ASSUMPTIONS = _A + ["the missing-quote pattern of each contract is a concrete structure enumerated by the harness "
                     "(never quoted / bid NaN / ask NaN / both NaN / discontinued / discontinued then quoted); "
                     "symbolic values are never NaN", "NLV before trading > 0 where it is defined",
@@ -60,7 +135,7 @@ BOUNDS = {
              "contracts of the same kind with the second one broken",
     "thorough": "two contracts of mixed kinds, either or both broken, all six patterns",
 }
-OUTSIDE = ["more than two non-cash contracts", "quotes going missing in the middle of a rebalance (not possible: "
+OUTSIDE = ["more than two non-cash contracts", "episodes with more than one contract losing its quote", "quotes going missing in the middle of a rebalance (not possible: "
            "no event is processed inside Broker.rebalance)"]
 STUBS = []
 DEADLINE_S = {"quick": 600, "thorough": 3600}
